@@ -242,7 +242,7 @@ def run(ctx):
     fl = import_library()
     ctx.level = "fault_enumeration"
     max_depth = ctx.scale(3, 4)
-    nrandom = ctx.scale(600, 40_000)
+    nrandom = ctx.scale(600, 200_000)
     ctx.rule = (
         "programs of nested `with settings.context(...)` blocks over subsets of the 7 settings, an exception raised at any level "
         "(caught at any outer level or not at all), direct assignments to named/unnamed keys inside contexts and helper probes; every "
